@@ -18,6 +18,7 @@ What is faked (trusted base):
 """
 import os
 import signal
+import subprocess
 import shutil
 import threading
 
@@ -340,6 +341,73 @@ class Engine(object):
                 os.killpg(proc.pid, signal.SIGKILL)
             except OSError:
                 pass
+        return obs
+
+    def run_task_flux(self, td_dict, slots, sandbox_kind, uid=None, ranks_per_node=2):
+        """the Flux path: the executor's real exec script (rank id taken from the Flux launch
+        method), run once per rank the way the Flux job shell runs it - `/bin/sh -c <exec script>`
+        in the task sandbox with FLUX_TASK_RANK (rank in the job) and FLUX_TASK_LOCAL_ID (rank on
+        its node; `ranks_per_node` ranks per node) - output collected in the task's stdout / stderr
+        files, the per-rank exit codes noted like the stand-in mpirun does"""
+        from radical.pilot.agent.launch_method.flux import Flux as FluxLM
+        uid = uid or 'task.%06d' % self.layout
+        td  = rp.TaskDescription(dict(td_dict, uid=uid))
+        td.verify()
+        if sandbox_kind == 'abs':
+            sbox = '%s/elsewhere/sbox.custom/' % self.root
+        elif sandbox_kind == 'rel':
+            sbox = '%s/custom.sbox/' % self.psbox
+        else:
+            sbox = '%s/%s/' % (self.psbox, uid)
+        task = wire_copy({
+            'uid': uid, 'type': 'task', 'name': td.name, 'origin': 'client',
+            'state': 'AGENT_EXECUTING', 'pilot': self.pid, 'description': td.as_dict(),
+            'task_sandbox': 'file://localhost' + sbox, 'task_sandbox_path': sbox,
+            'pilot_sandbox': self.psbox, 'session_sandbox': self.ssbox,
+            'resource_sandbox': self.rsbox, 'slots': slots})
+        obs = {'uid': uid, 'sbox': sbox.rstrip('/'), 'launcher': 'FLUX',
+               'rc': None, 'hang': False, 'error': None, 'task': task}
+        lm = FluxLM.__new__(FluxLM)
+        lm.name = 'FLUX'
+        lm._log = lm._prof = boot.LOG
+        try:
+            # what Flux._create_spec does before it builds the job spec
+            d = task['description']
+            out = d.get('stdout') or '%s/%s.out' % (sbox, uid)
+            err = d.get('stderr') or '%s/%s.err' % (sbox, uid)
+            _, exec_path = self.ex._create_exec_script(lm, task)
+        except Exception as e:               # noqa
+            obs['error'] = e
+            return obs
+        n = int(d['ranks'])
+        out = out if out.startswith('/') else sbox + out
+        err = err if err.startswith('/') else sbox + err
+        env = {'PATH': '%s/fakebin:/usr/bin:/bin' % self.psbox, 'HOME': self.root, 'LANG': 'C.UTF-8',
+               BASE_VAR: BASE_VALUE, 'RP_TASK_SANDBOX': sbox.rstrip('/'),
+               'FLUX_JOB_SIZE': str(n), 'FLUX_JOB_NNODES': str(-(-n // ranks_per_node))}
+        for k, v in (d.get('environment') or {}).items():
+            env[k] = str(v)
+        procs = []
+        with open(out, 'ab') as fo, open(err, 'ab') as fe:
+            for r in range(n):
+                renv = dict(env, FLUX_TASK_RANK=str(r), FLUX_TASK_LOCAL_ID=str(r % ranks_per_node))
+                procs.append(subprocess.Popen(['/bin/sh', '-c', exec_path], cwd=sbox, env=renv,
+                                              stdout=fo, stderr=fe, start_new_session=True))
+            rcs = []
+            for r, p in enumerate(procs):
+                try:
+                    rc = p.wait(timeout=RUN_TIMEOUT)
+                except subprocess.TimeoutExpired:
+                    obs['hang'] = True
+                    try:
+                        os.killpg(p.pid, signal.SIGKILL)
+                    except OSError:
+                        pass
+                    rc = None
+                rcs.append(rc)
+                with open('%sc10.rank.%d.rc' % (sbox, r), 'w') as f:
+                    f.write('%s\n' % rc)
+        obs['rc'] = None if obs['hang'] else next((rc for rc in rcs if rc), 0)
         return obs
 
     def cleanup(self, cdir, obs):
